@@ -85,14 +85,35 @@ def parsePartsAux (cc : CharClass) : List (List Char) → Dict → Res Dict
 def parseParts (cc : CharClass) (body : List Char) : Res Dict :=
   parsePartsAux cc (splitOn ';' (strip cc body)) []
 
-/-! ### the regular expression `\b(NAME) {(.*?)}`, hand-compiled
+/-! ### the regular expression `\b(NAME)GAP{(.*?)}`, hand-compiled
 
 `NAME` is `\w+` (every name accepted) or a literal / an alternation of literals made of word
-characters (`accept` tests the maximal word run: since the name is followed by a space, the
-literal matches iff it is the whole run).  `(\w+)` is greedy and may backtrack, but a shorter
-run is followed by a word character, never by the space the pattern demands, so only the
+characters (`accept` tests the maximal word run: since the name is followed by white space or the
+brace, the literal matches iff it is the whole run).  `(\w+)` is greedy and may backtrack, but a
+shorter run is followed by a word character, never by what the pattern demands next, so only the
 maximal run can match; `\b` before a word character means "the previous character is not a
-word character (or there is none)". -/
+word character (or there is none)".
+
+`GAP` is what the source writes between the name and the brace.  It is regenerated per pattern
+(`Generated/C11.lean`, the `…AnySpace` constants): one literal space (`false`), or `\s*` (`true`:
+any number of `str.isspace` characters, none included; greedy, and a shorter run is followed by
+white space, never by the brace, so only the maximal run can match). -/
+
+/-- `GAP{` at the start of `s`: the number of characters it takes, and what follows the brace -/
+def gapBrace (cc : CharClass) (anySpace : Bool) (s : List Char) : Option (Nat × List Char) :=
+  if anySpace then
+    match stripLeft cc s with
+    | '{' :: r => some (s.length - r.length, r)
+    | _ => none
+  else
+    match s with
+    | ' ' :: '{' :: r => some (2, r)
+    | _ => none
+
+def gapWidth (cc : CharClass) (anySpace : Bool) (s : List Char) : Nat :=
+  match gapBrace cc anySpace s with
+  | some g => g.1
+  | none => 0
 
 /-- maximal run of word characters at the start, and the rest -/
 def wordRun (cc : CharClass) : List Char → List Char × List Char
@@ -114,8 +135,8 @@ def lazyBody : List Char → Option (List Char)
       | none => none
 
 /-- an attempt to match the pattern exactly here; `prev` = "the previous character is a word
-    character".  Result: (group 1, group 2); the match is `name ++ " {" ++ body ++ "}"`. -/
-def matchAt (cc : CharClass) (accept : List Char → Bool) (prev : Bool) (s : List Char) :
+    character".  Result: (group 1, group 2); the match is `name ++ GAP ++ "{" ++ body ++ "}"`. -/
+def matchAt (cc : CharClass) (anySpace : Bool) (accept : List Char → Bool) (prev : Bool) (s : List Char) :
     Option (List Char × List Char) :=
   match s with
   | [] => none
@@ -125,25 +146,30 @@ def matchAt (cc : CharClass) (accept : List Char → Bool) (prev : Bool) (s : Li
       let r := wordRun cc s
       if !accept r.1 then none
       else
-        match r.2 with
-        | ' ' :: '{' :: r2 =>
-          match lazyBody r2 with
+        match gapBrace cc anySpace r.2 with
+        | some g =>
+          match lazyBody g.2 with
           | some b => some (r.1, b)
           | none => none
-        | _ => none
+        | none => none
 
 /-- `re.finditer`: try every position from left to right; after a match continue behind it
-    (`skip` counts the characters of the current match still to be passed over) -/
-def scan (cc : CharClass) (accept : List Char → Bool) : Nat → Bool → List Char → List (List Char × List Char)
+    (`skip` counts the characters of the current match still to be passed over: the name but its
+    first character, the gap with the brace, the body; the closing brace is the `+ 1` of the pattern
+    `skip + 1`) -/
+def scan (cc : CharClass) (anySpace : Bool) (accept : List Char → Bool) :
+    Nat → Bool → List Char → List (List Char × List Char)
   | _, _, [] => []
-  | skip + 1, _, c :: cs => scan cc accept skip (cc.isWord c) cs
+  | skip + 1, _, c :: cs => scan cc anySpace accept skip (cc.isWord c) cs
   | 0, prev, c :: cs =>
-    match matchAt cc accept prev (c :: cs) with
-    | some m => m :: scan cc accept (m.1.length + 2 + m.2.length) (cc.isWord c) cs
-    | none => scan cc accept 0 (cc.isWord c) cs
+    match matchAt cc anySpace accept prev (c :: cs) with
+    | some m => m :: scan cc anySpace accept
+        (m.1.length + gapWidth cc anySpace ((c :: cs).drop m.1.length) + m.2.length) (cc.isWord c) cs
+    | none => scan cc anySpace accept 0 (cc.isWord c) cs
 
-def findAll (cc : CharClass) (accept : List Char → Bool) (s : List Char) : List (List Char × List Char) :=
-  scan cc accept 0 false s
+def findAll (cc : CharClass) (anySpace : Bool) (accept : List Char → Bool) (s : List Char) :
+    List (List Char × List Char) :=
+  scan cc anySpace accept 0 false s
 
 /-! ### `parse_custom_attributes` -/
 
@@ -169,7 +195,7 @@ def parseMatches (cc : CharClass) : List (List Char × List Char) → Res (List 
       | .ok es => .ok (mkEntry m.1 d :: es)
 
 def parseCustomAttributes (cc : CharClass) (s : List Char) : Res (List Entry) :=
-  parseMatches cc (findAll cc (fun _ => true) s)
+  parseMatches cc (findAll cc Gen.attributesAnySpace (fun _ => true) s)
 
 /-! ### `make_custom_string` -/
 
@@ -188,14 +214,18 @@ def makeCustomString (es : List Entry) : List Char := intercalate [' '] (es.map 
 
 /-! ### `parse_custom_metadata_element`, `…_element_list`, `parse_custom_metadata` -/
 
-/-- `pat in s` for strings -/
-def hasInfix (pat : List Char) : List Char → Bool
-  | [] => pat.isEmpty
-  | c :: cs => pat.isPrefixOf (c :: cs) || hasInfix pat cs
+/-- the pattern `<tag>GAP{` exactly here -/
+def guardAt (cc : CharClass) (anySpace : Bool) (tag s : List Char) : Bool :=
+  tag.isPrefixOf s && (gapBrace cc anySpace (s.drop tag.length)).isSome
 
-/-- `re.search(r'\b' + field + r' {(.*?)}', s)`; no match → ValueError -/
+/-- `'<tag> {' in s` (one literal space) / `re.search(r'<tag>\s*{', s)`: the pattern somewhere in `s` -/
+def hasGuard (cc : CharClass) (anySpace : Bool) (tag : List Char) : List Char → Bool
+  | [] => guardAt cc anySpace tag []
+  | c :: cs => guardAt cc anySpace tag (c :: cs) || hasGuard cc anySpace tag cs
+
+/-- `re.search(r'\b' + field + r'GAP{(.*?)}', s)`; no match → ValueError -/
 def parseElement (cc : CharClass) (s : List Char) (field : List Char) : Res Dict :=
-  match findAll cc (fun r => r = field) s with
+  match findAll cc Gen.elementAnySpace (fun r => r = field) s with
   | [] => .error .ValueError
   | m :: _ => parseParts cc m.2
 
@@ -209,9 +239,9 @@ def parseElementMatches (cc : CharClass) : List (List Char × List Char) → Res
       | .error e => .error e
       | .ok ds => .ok (dictSet d typeKey (.str m.1) :: ds)
 
-/-- `re.finditer(r'\b(' + '|'.join(fields) + r') {(.*?)}', s)`; `metadata['type'] = tag` -/
+/-- `re.finditer(r'\b(' + '|'.join(fields) + r')GAP{(.*?)}', s)`; `metadata['type'] = tag` -/
 def parseElementList (cc : CharClass) (s : List Char) (fields : List (List Char)) : Res (List Dict) :=
-  parseElementMatches cc (findAll cc (fun r => fields.contains r) s)
+  parseElementMatches cc (findAll cc Gen.elementListAnySpace (fun r => fields.contains r) s)
 
 structure Metadata where
   customAttributes : List Entry
@@ -222,8 +252,6 @@ structure Metadata where
   customTags : Option (List Dict)
   deriving DecidableEq, Repr
 
-def guardString (tag : List Char) : List Char := tag ++ [' ', '{']
-
 /-- `if guard: metadata[key] = f(...)`: the field is set (`some`) only under the guard, and an
     exception of `f` propagates -/
 def whenGuard {α} (g : Bool) (r : Res α) : Res (Option α) :=
@@ -233,11 +261,11 @@ def whenGuard {α} (g : Bool) (r : Res α) : Res (Option α) :=
     | .error e => .error e
   else .ok none
 
-/-- the guard in front of a dedicated field.  The source decides its style (regenerated,
-    `Generated/C11.lean`): the plain substring test `'<tag> {' in custom`, or
-    `re.search(r'\b<tag> {.*?}', custom)` — the pattern the element parsers use themselves. -/
-def guardHolds (cc : CharClass) (regexStyle : Bool) (tag s : List Char) : Bool :=
-  if regexStyle then !(findAll cc (fun r => r = tag) s).isEmpty else hasInfix (guardString tag) s
+/-- the guard in front of a dedicated field.  The source decides its style and its gap (both
+    regenerated, `Generated/C11.lean`): the plain test `'<tag> {' in custom` / `re.search(r'<tag>\s*{', custom)`,
+    or `re.search(r'\b<tag>GAP{.*?}', custom)` — the pattern the element parsers use themselves. -/
+def guardHolds (cc : CharClass) (regexStyle anySpace : Bool) (tag s : List Char) : Bool :=
+  if regexStyle then !(findAll cc anySpace (fun r => r = tag) s).isEmpty else hasGuard cc anySpace tag s
 
 /-- `parse_custom_metadata` for an element that has a `custom` attribute;
     `if custom_tags:` is the truthiness of the requested list. -/
@@ -245,13 +273,13 @@ def parseCustomMetadata (cc : CharClass) (s : List Char) (customTags : List (Lis
   match parseCustomAttributes cc s with
   | .error e => .error e
   | .ok ca =>
-    match whenGuard (guardHolds cc Gen.readingOrderGuardRegex Gen.readingOrderTag s) (parseElement cc s Gen.readingOrderTag) with
+    match whenGuard (guardHolds cc Gen.readingOrderGuardRegex Gen.readingOrderGuardAnySpace Gen.readingOrderTag s) (parseElement cc s Gen.readingOrderTag) with
     | .error e => .error e
     | .ok ro =>
-      match whenGuard (guardHolds cc Gen.structureGuardRegex Gen.structureTag s) (parseElement cc s Gen.structureTag) with
+      match whenGuard (guardHolds cc Gen.structureGuardRegex Gen.structureGuardAnySpace Gen.structureTag s) (parseElement cc s Gen.structureTag) with
       | .error e => .error e
       | .ok st =>
-        match whenGuard (guardHolds cc Gen.textStyleGuardRegex Gen.textStyleTag s) (parseElementList cc s [Gen.textStyleTag]) with
+        match whenGuard (guardHolds cc Gen.textStyleGuardRegex Gen.textStyleGuardAnySpace Gen.textStyleTag s) (parseElementList cc s [Gen.textStyleTag]) with
         | .error e => .error e
         | .ok ts =>
           match whenGuard (!customTags.isEmpty) (parseElementList cc s customTags) with
